@@ -62,6 +62,10 @@ type Item struct {
 	Txs     []int  `json:"txs,omitempty"` // transaction pool ids
 	Ts      int64  `json:"ts,omitempty"`  // batch timestamp, milliseconds after the base instant
 	ExecErr bool   `json:"exec_err,omitempty"`
+	// a client of the running node (RPC GetBlock / DA submitter / header exchange) reads the height being
+	// produced and the one below it through the node's store WHILE the execution layer works, i.e. between
+	// the early save and the final save of the block.  Reads have no effect in the model.
+	Peek bool `json:"peek,omitempty"`
 	// stop: SaveCache, then exit; with Crash the process dies after K (0..8) of the eight cache files were
 	// renamed into place (files K.. keep their previous content, a partly written <file K>.tmp stays behind)
 	// tamper (NOT a crash): cache file TornFile is truncated in place by hand
@@ -133,6 +137,7 @@ type execDouble struct {
 	next     []byte // nil = error
 	calls    []Call
 	inits    int
+	peek     bool // a concurrent reader looks at the store during this ExecuteTxs
 }
 
 var _ coreexecutor.Executor = (*execDouble)(nil)
@@ -147,6 +152,9 @@ func (e *execDouble) InitChain(ctx context.Context, genesisTime time.Time, initi
 func (e *execDouble) GetTxs(ctx context.Context) ([][]byte, error) { return nil, nil }
 func (e *execDouble) ExecuteTxs(ctx context.Context, txs [][]byte, blockHeight uint64, timestamp time.Time, prevStateRoot []byte) ([]byte, uint64, error) {
 	e.calls = append(e.calls, Call{H: blockHeight, Txs: e.w.txIDs(txs), T: timeToMs(timestamp), Prev: rootID(prevStateRoot)})
+	if e.peek {
+		e.w.Or.reader(blockHeight)
+	}
 	if e.next == nil {
 		return nil, 0, errors.New("exec double: ExecuteTxs failed")
 	}
@@ -232,12 +240,18 @@ type World struct {
 
 	node *node // nil = no running process
 
+	// results of the two pure functions "header.Signature verifies under header.Signer.PubKey" and
+	// "SignedHeader.ValidateBasic() == nil", keyed by the exact encoding of the signed header a store returned
+	// (Ed25519 verification dominates the run time; every store read is still made and projected)
+	memo map[string][2]bool
+
 	// oracle bookkeeping (independent of the Coq model)
 	Or *Oracle
 }
 
 type node struct {
 	m    *block.Manager
+	st   store.Store // the store object the Manager works on: what every other component of the node reads through
 	exec *execDouble
 	seq  *seqDouble
 	hb   *bcast[*types.SignedHeader]
@@ -311,7 +325,18 @@ func (w *World) txIDs(txs [][]byte) []int {
 	return out
 }
 
-func (w *World) Store() store.Store { return store.New(w.DS) }
+// Store is the store a reader of the node sees: while a process runs, the very object handed to
+// NewManager (the RPC server, the DA submitter and the sync services of a node all share it), otherwise a
+// store freshly opened on the datastore.
+func (w *World) Store() store.Store {
+	if w.node != nil && w.node.st != nil {
+		return w.node.st
+	}
+	return store.New(w.DS)
+}
+
+// Disk is a store freshly opened on the datastore: what a restarted process would read.
+func (w *World) Disk() store.Store { return store.New(w.DS) }
 
 // ---- observations ----------------------------------------------------------------------------------
 
@@ -329,6 +354,7 @@ type Obs struct {
 	Writes []string // shapes of the atomic writes that reached the datastore: cursor:<id> block:<n> height:<n> state
 	Height uint64   // store height afterwards
 	State  *StateObs
+	Tip    []PBlock // the block records served at the store height and one above it (the pending block), afterwards
 	ErrTxt string
 }
 
@@ -394,14 +420,23 @@ func (w *World) readBack(o *Obs) {
 	}
 }
 
-func (w *World) newManager(exec *execDouble, seq *seqDouble, hb *bcast[*types.SignedHeader], db *bcast[*types.Data]) (*block.Manager, error) {
+// readTip projects what the store serves at the store height and one above it (the pending block).
+func (w *World) readTip(o *Obs) {
+	o.Tip = nil
+	for _, n := range []uint64{o.Height, o.Height + 1} {
+		pb, _, _ := w.Block(n)
+		o.Tip = append(o.Tip, pb)
+	}
+}
+
+func (w *World) newManager(st store.Store, exec *execDouble, seq *seqDouble, hb *bcast[*types.SignedHeader], db *bcast[*types.Data]) (*block.Manager, error) {
 	cfg := config.DefaultConfig
 	cfg.RootDir = w.RootDir
 	cfg.Node.Aggregator = true
 	cfg.Node.LazyMode = w.Cfg.Lazy
 	cfg.Node.MaxPendingHeadersAndData = 0
 	cfg.Node.BlockTime.Duration = time.Second
-	return block.NewManager(w.ctx, w.Signer, cfg, w.Gen, store.New(w.DS), exec, seq, nil, logging.Logger("verif-producer"),
+	return block.NewManager(w.ctx, w.Signer, cfg, w.Gen, st, exec, seq, nil, logging.Logger("verif-producer"),
 		nil, nil, hb, db, block.NopMetrics(), 1, 1, block.DefaultManagerOptions())
 }
 
@@ -431,7 +466,8 @@ func (w *World) Run(idx int, it Item) (obs Obs) {
 		}
 		seq := &seqDouble{w: w}
 		hb, db := &bcast[*types.SignedHeader]{}, &bcast[*types.Data]{}
-		m, err := w.newManager(exec, seq, hb, db)
+		nst := store.New(w.DS)
+		m, err := w.newManager(nst, exec, seq, hb, db)
 		bootErr = err
 		if err != nil {
 			obs.Res = classify(err)
@@ -441,7 +477,7 @@ func (w *World) Run(idx int, it Item) (obs Obs) {
 			obs.ErrTxt = err.Error()
 		} else {
 			obs.Res = "boot-ok"
-			w.node = &node{m: m, exec: exec, seq: seq, hb: hb, db: db}
+			w.node = &node{m: m, st: nst, exec: exec, seq: seq, hb: hb, db: db}
 		}
 		if !it.Crash {
 			w.Or.afterBoot(idx, it, exec.inits > 0 && !it.InitErr, err)
@@ -456,6 +492,7 @@ func (w *World) Run(idx int, it Item) (obs Obs) {
 		itc := it
 		nd.seq.next, nd.seq.idx = &itc, idx
 		nd.exec.next = nil
+		nd.exec.peek = it.Peek
 		if !it.ExecErr {
 			nd.exec.next = rootBytes(RootID(idx))
 		}
@@ -530,6 +567,7 @@ func (w *World) Run(idx int, it Item) (obs Obs) {
 		obs.Writes = append(obs.Writes, shapeOf(wr))
 	}
 	w.readBack(&obs)
+	w.readTip(&obs)
 	if dsCrash && obs.Res == "crashed" {
 		w.Or.afterCrash(idx, it, obs)
 	}
@@ -628,8 +666,13 @@ type PBlock struct {
 	VBasic  bool
 }
 
+// Block projects the record at height n as a reader of the node gets it (see Store): GetBlockData(n) for the
+// signed header and the data, GetSignature(n) for the signature record.
 func (w *World) Block(n uint64) (pb PBlock, sh *types.SignedHeader, d *types.Data) {
-	st := w.Store()
+	return w.BlockVia(w.Store(), n)
+}
+
+func (w *World) BlockVia(st store.Store, n uint64) (pb PBlock, sh *types.SignedHeader, d *types.Data) {
 	sh, d, err := st.GetBlockData(w.ctx, n)
 	if err != nil {
 		return PBlock{}, nil, nil
@@ -657,17 +700,14 @@ func (w *World) Block(n uint64) (pb PBlock, sh *types.SignedHeader, d *types.Dat
 	pb.App = rootID(sh.AppHash)
 	pb.ChainOk = sh.ChainID() == w.Gen.ChainID
 	pb.PropOk = bytes.Equal(sh.ProposerAddress, w.Gen.ProposerAddress)
-	payload, _ := types.DefaultSignaturePayloadProvider(&sh.Header)
+	verifies, vbasic := w.verdicts(sh)
 	switch {
 	case len(sh.Signature) == 0:
 		pb.HSig = 0
+	case verifies:
+		pb.HSig = 1
 	default:
 		pb.HSig = 2
-		if sh.Signer.PubKey != nil {
-			if ok, err := sh.Signer.PubKey.Verify(payload, sh.Signature); err == nil && ok {
-				pb.HSig = 1
-			}
-		}
 	}
 	pb.SignOk = sh.Signer.PubKey != nil && bytes.Equal(sh.Signer.Address, w.Gen.ProposerAddress) &&
 		bytes.Equal(types.KeyAddress(sh.Signer.PubKey), w.Gen.ProposerAddress) && sh.Signer.PubKey.Equals(w.PubKey)
@@ -688,8 +728,42 @@ func (w *World) Block(n uint64) (pb PBlock, sh *types.SignedHeader, d *types.Dat
 	default:
 		pb.Meta = 2
 	}
-	pb.VBasic = sh.ValidateBasic() == nil
+	pb.VBasic = vbasic
 	return pb, sh, d
+}
+
+// verdicts evaluates, with the implementation's own functions and on exactly the signed header a store
+// returned, whether header.Signature verifies under header.Signer.PubKey over the header's signature
+// payload and whether SignedHeader.ValidateBasic accepts it.
+func (w *World) verdicts(sh *types.SignedHeader) (verifies, vbasic bool) {
+	key := ""
+	if b, err := sh.MarshalBinary(); err == nil {
+		key = string(b)
+		if v, ok := w.memo[key]; ok {
+			return v[0], v[1]
+		}
+	}
+	if len(sh.Signature) > 0 && sh.Signer.PubKey != nil {
+		if payload, err := types.DefaultSignaturePayloadProvider(&sh.Header); err == nil {
+			if ok, err := sh.Signer.PubKey.Verify(payload, sh.Signature); err == nil && ok {
+				verifies = true
+			}
+		}
+	}
+	vbasic = sh.ValidateBasic() == nil
+	if key != "" {
+		if w.memo == nil {
+			w.memo = map[string][2]bool{}
+		}
+		w.memo[key] = [2]bool{verifies, vbasic}
+	}
+	return verifies, vbasic
+}
+
+func (p PBlock) Eq(q PBlock) bool {
+	return p.Present == q.Present && p.H == q.H && p.T == q.T && eqInts(p.Txs, q.Txs) && p.Link == q.Link && p.DHOk == q.DHOk &&
+		p.App == q.App && p.ChainOk == q.ChainOk && p.PropOk == q.PropOk && p.HSig == q.HSig && p.SignOk == q.SignOk &&
+		p.SSig == q.SSig && p.Meta == q.Meta && p.VBasic == q.VBasic
 }
 
 // Blocks projects the records at heights initial .. max(store height, initial-1)+1.
@@ -803,7 +877,11 @@ func (o Obs) Coq() string {
 	for _, s := range o.Writes {
 		sh = append(sh, shapeCoq(s))
 	}
-	return fmt.Sprintf("mk_obs %d %s %s %s %s %s %s", code, vgen.N(o.N), call, req, vgen.List(sh), vgen.N(o.Height), st)
+	var tip []string
+	for _, b := range o.Tip {
+		tip = append(tip, b.Coq())
+	}
+	return fmt.Sprintf("mk_obs %d %s %s %s %s %s %s %s", code, vgen.N(o.N), call, req, vgen.List(sh), vgen.N(o.Height), st, vgen.List(tip))
 }
 
 func b2n(b bool) string {
